@@ -67,6 +67,25 @@ class Ref:
         return "&%r" % (self.cell[0],)
 
 
+class ListVal:
+    """a concrete slice / Vec value"""
+    def __init__(self, items):
+        self.items = list(items)
+
+    def __repr__(self):
+        return "list%r" % (self.items,)
+
+
+class IterVal:
+    def __init__(self, items, by_ref=True):
+        self.items = list(items)
+        self.i = 0
+        self.by_ref = by_ref
+
+    def __repr__(self):
+        return "iter@%d%r" % (self.i, self.items)
+
+
 class Closure:
     def __init__(self, path, captured):
         self.path = path
@@ -342,6 +361,32 @@ class Interp:
             r = self._combinator(m.group(2), args, depth)
             if r is not NotImplemented:
                 return r
+        # concrete slices / Vecs: iter(), next(), any(), all()
+        if args and isinstance(deref(args[0]), (ListVal, IterVal)):
+            x = deref(args[0])
+            if re.search(r"::iter$|IntoIterator>?::into_iter$|Deref>?::deref$|::as_slice$", name):
+                if isinstance(x, IterVal) or re.search(r"deref$|as_slice$", name):
+                    return x
+                return IterVal(x.items, by_ref=True)
+            if isinstance(x, IterVal):
+                wrap = (lambda v: Ref([v])) if x.by_ref else (lambda v: v)
+                if re.search(r"Iterator>?::next$", name):
+                    if x.i < len(x.items):
+                        x.i += 1
+                        return _some(wrap(x.items[x.i - 1]))
+                    return _none()
+                if re.search(r"Iterator>?::(any|all)$", name):
+                    is_any = name.endswith("any")
+                    while x.i < len(x.items):
+                        x.i += 1
+                        r = self._apply(args[1], [wrap(x.items[x.i - 1])], depth)
+                        if bool(r) == is_any:
+                            return is_any
+                    return not is_any
+            if re.search(r"::(len)$", name):
+                return len(x.items)
+            if re.search(r"::is_empty$", name):
+                return not x.items
         # the `?` operator on Option / Result
         if re.search(r"^<std::(option::Option|result::Result)<.*> as std::ops::Try>::branch$", name):
             x = deref(args[0])
